@@ -9,8 +9,12 @@ package main
 // nil / empty / a selector / a refused value.  The engine is built exactly as the long-lived mode
 // of engine.go builds it (WithState/WithMemory so that the session can be observed) and wrapped in
 // a recorder that implements engine.Engine and notes every Exec / Flush / Finish call Loop makes.
-// Recorded: the bytes written, the error class Loop returned, a panic, the calls, the session
-// after Loop.  Cases are evaluated by coq/corr/LoopCorr.v.
+// Recorded: the bytes written, the error class Loop returned, a panic, the calls (each with the
+// session after it), the session after Loop.  Further streams: browse walks (an application whose
+// first page offers "11:", walked with 11 / 22 on CR LF terminated or blank/tab padded lines; every
+// case under -prop C02) and persister modes (Loop over persist.Persister on a memory or filesystem
+// store, plain and WithFlush; the record left in the store is read back; every case under -prop C12).
+// Cases are evaluated by coq/corr/LoopCorr.v.
 
 import (
 	"bytes"
@@ -23,7 +27,11 @@ import (
 	"time"
 
 	"git.defalsify.org/vise.git/cache"
+	"git.defalsify.org/vise.git/db"
+	fsdb "git.defalsify.org/vise.git/db/fs"
+	memdb "git.defalsify.org/vise.git/db/mem"
 	"git.defalsify.org/vise.git/engine"
+	"git.defalsify.org/vise.git/persist"
 	"git.defalsify.org/vise.git/state"
 	"verif/harness/internal/hx"
 )
@@ -40,6 +48,7 @@ type lCall struct {
 	Out     []byte `json:"out"`
 	L       int    `json:"l"`
 	Flush   string `json:"flush"`
+	snap    string // the session after the request
 }
 
 func (c lCall) term() string {
@@ -47,7 +56,11 @@ func (c lCall) term() string {
 	if c.Flushed {
 		fl = fmt.Sprintf("(Some (%s, %d, %s))", hx.B(c.Out), c.L, c.Flush)
 	}
-	return fmt.Sprintf("(mkLobs %s %s %s %s)", hx.B(c.Input), hx.Bool(c.Cont), c.Exec, fl)
+	sn := c.snap
+	if sn == "" {
+		sn = "None"
+	}
+	return fmt.Sprintf("(mkLobs %s %s %s %s %s)", hx.B(c.Input), hx.Bool(c.Cont), c.Exec, fl, sn)
 }
 
 type recEngine struct {
@@ -56,6 +69,7 @@ type recEngine struct {
 	calls    []lCall
 	finishes int
 	stray    int // Flush before any Exec, or on another writer: never expected
+	snapshot func() string
 }
 
 func (r *recEngine) Exec(ctx context.Context, input []byte) (bool, error) {
@@ -64,6 +78,7 @@ func (r *recEngine) Exec(ctx context.Context, input []byte) (bool, error) {
 	cont, err := r.en.Exec(ctx, input)
 	r.calls[i].Cont = cont
 	r.calls[i].Exec = errClass(err)
+	r.calls[i].snap = r.snapshot()
 	return cont, err
 }
 
@@ -76,10 +91,12 @@ func (r *recEngine) Flush(ctx context.Context, w io.Writer) (int, error) {
 	r.calls[i].Flushed = true
 	r.calls[i].Flush = "OSPanic"
 	before := r.buf.Len()
+	r.calls[i].snap = ""
 	defer func() { r.calls[i].Out = append([]byte{}, r.buf.Bytes()[before:]...) }()
 	l, err := r.en.Flush(ctx, w)
 	r.calls[i].L = l
 	r.calls[i].Flush = errClass(err)
+	r.calls[i].snap = r.snapshot()
 	return l, err
 }
 
@@ -98,6 +115,8 @@ type loopObs struct {
 	Calls    []lCall `json:"calls"`
 	Finishes int     `json:"finishes"`
 	Stray    int     `json:"stray"`
+	Mode     int     `json:"mode"`
+	Stored   string  `json:"stored,omitempty"`
 	snap     string
 }
 
@@ -112,7 +131,11 @@ func loopStat(err error) string {
 	return strings.Replace(errClass(err), "OSErr", "OLErr", 1)
 }
 
-func runLoopCase(a *eApp, c *eCfg, initial []byte, reader []byte) (loopObs, error) {
+// mode: 0 = the long-lived engine of engine.go (WithState/WithMemory); 1 = over a persister on a memory
+// store; 2 = the same created WithFlush; 3, 4 = the same two over a filesystem store.  In the
+// persister modes the store has no record for the session, and the record it holds after Loop is read
+// back with a new persister (as the persisted mode of engine.go does)
+func runLoopCase(a *eApp, c *eCfg, initial []byte, reader []byte, mode int) (loopObs, error) {
 	// watchdog: a generated application must not make the real engine loop
 	done := make(chan struct{})
 	defer close(done)
@@ -135,14 +158,54 @@ func runLoopCase(a *eApp, c *eCfg, initial []byte, reader []byte) (loopObs, erro
 	if c.First != nil {
 		en = en.WithFirst(scripted(w, "_first", c.First))
 	}
-	st := state.NewState(c.FlagCount)
-	ca := cache.NewCache()
-	if c.CacheSize > 0 {
-		ca = ca.WithCacheSize(c.CacheSize)
+	o.Mode = mode
+	var st *state.State
+	var ca *cache.Cache
+	var store db.Db
+	var pe *persist.Persister
+	snapshot := func() string { return snapTerm(st, ca) }
+	if mode == 0 {
+		st = state.NewState(c.FlagCount)
+		ca = cache.NewCache()
+		if c.CacheSize > 0 {
+			ca = ca.WithCacheSize(c.CacheSize)
+		}
+		en = en.WithState(st).WithMemory(ca)
+	} else {
+		if mode >= 3 {
+			dir, derr := os.MkdirTemp("", "vh-loop-")
+			if derr != nil {
+				return o, derr
+			}
+			defer os.RemoveAll(dir)
+			fs := fsdb.NewFsDb()
+			if cerr := fs.Connect(context.Background(), dir); cerr != nil {
+				return o, cerr
+			}
+			store = fs
+		} else {
+			store = memdb.NewMemDb()
+			store.Connect(context.Background(), "")
+		}
+		pe = persist.NewPersister(store)
+		if mode == 2 || mode == 4 {
+			pe = pe.WithFlush()
+		}
+		en = en.WithPersister(pe)
+		// the session the engine works on is the persister's content at the time of the call
+		snapshot = func() string {
+			pst := pe.GetState()
+			pca, _ := pe.GetMemory().(*cache.Cache)
+			return snapTerm(pst, pca)
+		}
 	}
-	en = en.WithState(st).WithMemory(ca)
 	buf := bytes.NewBuffer(nil)
 	rec := &recEngine{en: en, buf: buf}
+	rec.snapshot = func() (s string) {
+		s = "None"
+		hx.Recover(func() { s = snapshot() })
+		return
+	}
 	o.Stat = "OLPanic"
 	panicked, v := hx.Recover(func() {
 		err := engine.Loop(context.Background(), rec, bytes.NewReader(reader), buf, initial)
@@ -155,16 +218,25 @@ func runLoopCase(a *eApp, c *eCfg, initial []byte, reader []byte) (loopObs, erro
 	o.Calls = rec.calls
 	o.Finishes = rec.finishes
 	o.Stray = rec.stray
-	o.snap = snapTerm(st, ca)
+	o.snap = snapTerm(st, ca) // "None" in the persister modes
 	if panicked {
 		o.Panic = fmt.Sprint(v)
 		o.snap = "None"
 	}
+	if mode != 0 {
+		pe2 := persist.NewPersister(store).WithContent(state.NewState(c.FlagCount), cache.NewCache())
+		o.Stored = "(Some None)"
+		var lerr error
+		lp, _ := hx.Recover(func() { lerr = pe2.Load("sess") })
+		if !lp && lerr == nil {
+			o.Stored = "(Some " + snapTerm(pe2.State, pe2.Memory) + ")"
+		}
+	}
 	return o, nil
 }
 
-func loopCase(kind string, g genOut, initial []byte, reader []byte) (hx.Case, loopObs, error) {
-	o, err := runLoopCase(g.app, g.cfg, initial, reader)
+func loopCase(kind string, g genOut, initial []byte, reader []byte, mode int) (hx.Case, loopObs, error) {
+	o, err := runLoopCase(g.app, g.cfg, initial, reader, mode)
 	if err != nil {
 		return hx.Case{}, o, err
 	}
@@ -176,8 +248,12 @@ func loopCase(kind string, g genOut, initial []byte, reader []byte) (hx.Case, lo
 	for i, c := range o.Calls {
 		calls[i] = c.term()
 	}
-	term := fmt.Sprintf("(mkLcase %s %s %s %s %s %s %s %d %d %s)", g.app.term(), g.cfg.term(), ini, hx.B(reader),
-		hx.B(o.Written), o.Stat, hx.List(calls), o.Finishes, o.Stray, o.snap)
+	stored := "None"
+	if o.Stored != "" {
+		stored = o.Stored
+	}
+	term := fmt.Sprintf("(mkLcase %s %s %s %s %s %s %s %d %d %s %d %s)", g.app.term(), g.cfg.term(), ini, hx.B(reader),
+		hx.B(o.Written), o.Stat, hx.List(calls), o.Finishes, o.Stray, o.snap, mode, stored)
 	desc := map[string]interface{}{"nodes": g.desc, "cfg": g.cfg, "app": g.app, "initial_nil": initial == nil,
 		"initial": string(initial), "reader": string(reader), "observed": o}
 	return hx.Case{Term: term, Kind: kind, Trivial: len(o.Calls) < 2, Desc: desc}, o, nil
@@ -290,6 +366,7 @@ type loopCorpusCase struct {
 	initial []byte
 	nilInit bool
 	reader  string
+	mode    int // see runLoopCase
 }
 
 var loopCorpus = []loopCorpusCase{
@@ -329,6 +406,59 @@ var loopCorpus = []loopCorpusCase{
 	{name: "deep-cycle", app: "deep-cycle", nilInit: true, reader: strings.Repeat("1\n", 131)},
 	{name: "sizer-sink", app: "sizer-sink-name", nilInit: true, reader: "11\n22\n1\n0\n11\n"},
 	{name: "anon-node", app: "anon-node", nilInit: true, reader: "0\nx\n1\n\n0\n"},
+	// C02: paged sinks walked by a client whose lines end in CR LF or carry blanks and tabs around the
+	// offered browse selectors (INCMP > 11, INCMP < 22)
+	{name: "sink-walk-crlf", app: "sizer-sink-name", nilInit: true, reader: "11\r\n11\r\n22\r\n22\r\n1\r\n0\r\n"},
+	{name: "sink-walk-blanks", app: "sizer-sink-name", nilInit: true, reader: " 11\n11 \n\t22\t\n  22  \r\n"},
+	{name: "menu-walk-crlf", app: "menu-sink", nilInit: true, reader: "11\r\n11\r\n22\r\n11\r\n"},
+	{name: "menu-walk-blanks", app: "menu-sink", nilInit: true, reader: "11 \n\t11\n 22\t\r\n11\v\n"},
+	{name: "browse-walk-crlf", app: "browse-past-end", nilInit: true, reader: "22\r\n11\r\n 11\r\n11 \r\n"},
+	{name: "sink-reused-crlf", app: "sink-name-reused", nilInit: true, reader: "1\r\n0\r\n2\r\n0\r\n"},
+	// C12: Loop over a persister, plain and WithFlush, memory and filesystem store, on sessions the ENGINE
+	// ends (graceful end, TERMINATE, abnormal end, stop on the first request) and on the other exits (EOF, error)
+	{name: "persist-graceful-end", app: "graceful-end", nilInit: true, reader: "1\n1\n\n1\n", mode: 1},
+	{name: "persist-flush-graceful-end", app: "graceful-end", nilInit: true, reader: "1\n1\n\n1\n", mode: 2},
+	{name: "persist-fs-graceful-end", app: "graceful-end", nilInit: true, reader: "1\n1\n\n1\n", mode: 3},
+	{name: "persist-fs-flush-graceful-end", app: "graceful-end", nilInit: true, reader: "1\n1\n\n1\n", mode: 4},
+	{name: "persist-terminate", app: "terminate-blocked", initial: []byte{}, reader: "1\n0\n1\n", mode: 1},
+	{name: "persist-flush-terminate", app: "terminate-blocked", initial: []byte{}, reader: "1\n0\n1\n", mode: 2},
+	{name: "persist-fs-flush-terminate", app: "terminate-blocked", initial: []byte{}, reader: "1\n0\n1\n", mode: 4},
+	{name: "persist-flush-abnormal-end", app: "abnormal-end", nilInit: true, reader: "1\n\n1\n", mode: 2},
+	{name: "persist-flush-croak-flags", app: "croak", nilInit: true, reader: "1\n1\n0\n", mode: 2},
+	{name: "persist-flush-eof", app: "graceful-end", nilInit: true, reader: "1\n", mode: 2},
+	{name: "persist-flush-refused-line", app: "graceful-end", nilInit: true, reader: "1\n!bad\n", mode: 2},
+	{name: "persist-flush-first-refused", app: "graceful-end", initial: []byte("!bad"), reader: "1\n", mode: 2},
+	{name: "persist-flush-exit-overflow", app: "exit-overflow", nilInit: true, reader: "1\n\n1\n", mode: 2},
+	{name: "persist-flush-first-stop", app: "first-long-exit", nilInit: true, reader: "1\n", mode: 2},
+	{name: "persist-fs-eof", app: "graceful-end", nilInit: true, reader: "1\n", mode: 3},
+}
+
+// a reader for walking a paged sink: mostly the browse selectors, on lines ending in CR LF or padded
+// with blanks and tabs
+func genBrowseReader(r *rand.Rand, sels []string) []byte {
+	var b bytes.Buffer
+	n := 2 + r.Intn(7)
+	pad := func() string {
+		if r.Intn(5) < 2 {
+			return ""
+		}
+		return pick(r, []string{" ", "\t", "  ", " \t", "\r", "\v", "\f", "\u00a0", "\u3000"})
+	}
+	for i := 0; i < n; i++ {
+		tok := pick(r, []string{"11", "11", "11", "22", "22"})
+		if r.Intn(6) == 0 {
+			tok = pick(r, sels)
+		}
+		b.WriteString(pad())
+		b.WriteString(tok)
+		b.WriteString(pad())
+		if r.Intn(2) == 0 {
+			b.WriteString("\r\n")
+		} else {
+			b.WriteString("\n")
+		}
+	}
+	return b.Bytes()
 }
 
 func findEngineCorpus(name string) (corpusCase, bool) {
@@ -347,10 +477,14 @@ func runLoop(o opts) error {
 	switch o.prop {
 	case "C01":
 		viol = "loop_violations_c01"
-	case "C20", "C06":
+	case "C20", "C06", "C17":
 		viol = "loop_violations_c20"
+	case "C02":
+		viol = "loop_violations_c02"
+	case "C12", "C07":
+		viol = "loop_violations_c12"
 	}
-	w := &hx.Writer{Dir: o.out, Prop: o.prop, Imports: "Bytes Errors Consts Codec CacheModel StateModel NavModel RenderModel VmModel EngineModel LoopModel CorrBase EngineCorr LoopCorr",
+	w := &hx.Writer{Dir: o.out, Prop: o.prop, Imports: "Bytes Errors Consts Codec CacheModel StateModel NavModel RenderModel VmModel EngineModel LoopModel CorrBase EngineCorr EngineMon LoopCorr",
 		CaseType: "lcase", Mism: "loop_mismatches", Viol: viol, PerShard: 30}
 	count := func(ob loopObs, reader []byte) {
 		w.Count("stat:" + ob.Stat)
@@ -364,6 +498,18 @@ func runLoop(o opts) error {
 		}
 		if ob.Panic != "" {
 			w.Count("panic")
+		}
+		w.Count(fmt.Sprintf("mode:%d", ob.Mode))
+		if ob.Mode != 0 && len(ob.Calls) > 0 && !ob.Calls[len(ob.Calls)-1].Cont && ob.Stat == "OLOk" {
+			w.Count("persisted:engine-ended-session")
+			if ob.Mode == 2 || ob.Mode == 4 {
+				w.Count("persisted:engine-ended-session-withflush")
+			}
+		}
+		for i, c := range ob.Calls {
+			if i > 0 && (string(c.Input) == "11" || string(c.Input) == "22") && bytes.Contains(ob.Calls[i-1].Out, append([]byte("\n"), append(c.Input, ':')...)) {
+				w.Count("browse-selector-offered-and-typed")
+			}
 		}
 		// what the executed lines exercised of TrimSpace
 		raw := bytes.Split(reader, []byte{'\n'})
@@ -399,7 +545,7 @@ func runLoop(o opts) error {
 		if lc.nilInit {
 			ini = nil
 		}
-		c, ob, err := loopCase("corpus:"+lc.name, g, ini, []byte(lc.reader))
+		c, ob, err := loopCase("corpus:"+lc.name, g, ini, []byte(lc.reader), lc.mode)
 		if err != nil {
 			return err
 		}
@@ -409,7 +555,7 @@ func runLoop(o opts) error {
 	for i, g := range exampleApps() {
 		r := hx.Rng(o.seed, "loop-example", i)
 		reader := genReader(r, g.sels, false)
-		c, ob, err := loopCase("example", g, genInitial(r, g.sels), reader)
+		c, ob, err := loopCase("example", g, genInitial(r, g.sels), reader, 0)
 		if err != nil {
 			return err
 		}
@@ -429,7 +575,7 @@ func runLoop(o opts) error {
 		// 8 times, same PRNG) until the first request of the REAL engine goes on, so that Loop reads input
 		if r.Intn(4) > 0 {
 			for try := 0; try < 8; try++ {
-				dry, err := runLoopCase(g.app, g.cfg, ini, nil)
+				dry, err := runLoopCase(g.app, g.cfg, ini, nil, 0)
 				if err != nil {
 					return err
 				}
@@ -441,7 +587,33 @@ func runLoop(o opts) error {
 			}
 		}
 		reader := genReader(r, g.sels, malformed)
-		c, ob, err := loopCase(kind, g, ini, reader)
+		// a second PRNG for the later additions, so that the cases above stay what they were
+		r2 := hx.Rng(o.seed, "loop-extra", i)
+		// browse walks (every case under -prop C02, one in five otherwise): an application whose first
+		// page offers the 'next' entry "11:", walked with the browse selectors on CR LF / padded lines
+		if o.prop == "C02" || r2.Intn(5) == 0 {
+			for try := 0; try < 150; try++ {
+				gb := genApp(r2)
+				dry, err := runLoopCase(gb.app, gb.cfg, nil, nil, 0)
+				if err != nil {
+					return err
+				}
+				if len(dry.Calls) == 1 && dry.Calls[0].Cont && dry.Calls[0].Flush == "OSOk" && bytes.Contains(dry.Calls[0].Out, []byte("\n11:")) {
+					g, ini, kind = gb, nil, "generated-browse-walk"
+					reader = genBrowseReader(r2, gb.sels)
+					break
+				}
+			}
+		}
+		// persister modes (every case under -prop C12 / C07, one in four otherwise)
+		mode := 0
+		if o.prop == "C12" || o.prop == "C07" || r2.Intn(4) == 0 {
+			mode = 1 + r2.Intn(4)
+			if r2.Intn(3) == 0 {
+				mode = 2 // WithFlush on a memory store
+			}
+		}
+		c, ob, err := loopCase(kind, g, ini, reader, mode)
 		if err != nil {
 			return err
 		}
